@@ -57,7 +57,12 @@ def build(sc):
     cell = CELLS[sc['cell']][1]
     fr = FRACS[sc['fr']][1]
     pos = fr @ cell if cell is not None else fr * 10.0
-    kw = dict(elements=list(ELS), positions=pos, cell=None if cell is None else cell.copy(), charges=CHARGES[sc['ch']])
+    if sc['ch']:
+        # force-field style typing: two atom types share the element C (labels must still be unique per atom)
+        kw = dict(atom_types=[0, 1, 2, 3, 4], atom_type_elements=list(ELS), atom_type_labels=['C_a', 'N_a', 'C_b', 'O_a', 'Zr_a'], atom_type_masses=[MASS[e] for e in ELS],
+                  positions=pos, cell=None if cell is None else cell.copy(), charges=CHARGES[sc['ch']])
+    else:
+        kw = dict(elements=list(ELS), positions=pos, cell=None if cell is None else cell.copy(), charges=CHARGES[sc['ch']])
     nx = sc['xc']
     if nx:
         kw['extra_atom_labels'] = ['_atom_site_occupancy', '_atom_site_my_tag'][:nx]
